@@ -43,7 +43,7 @@ def build_frame(ctx, collide=None):
     if k_frame % 4 == 3 or (ctx.tier == "thorough" and rng.random() < 0.2):
         nests[0] = rng.choice(DOTTED)
     n_rows = 3
-    lens = [2, 0, 3]
+    lens = rng.choice([[2, 0, 3], [2, 0, 3], [2, 1, 3]])   # sometimes every row has records (flat labels = frame labels)
     total = sum(lens)
     index = [10, 20, 30]
     flat_index = [l for l, k in zip(index, lens) for _ in range(k)]
